@@ -49,7 +49,7 @@ class Tape {
   // inclusive range
   int range(int lo, int hi) { return hi <= lo ? lo : lo + int(below(uint32_t(hi - lo + 1))); }
   bool flip() { return (u8() & 1) != 0; }
-  // true with probability num/den (0 on an exhausted tape -> false)
+  // true with probability num/den; NOTE: on an exhausted tape below() yields 0, so the result is TRUE (if num > 0)
   bool chance(unsigned num, unsigned den) { return below(den) < num; }
   // index chosen with the given weights; weight list must be non-empty with positive sum; 0-tape picks index 0
   size_t weighted(std::initializer_list<unsigned> w) {
